@@ -60,7 +60,17 @@ pub fn transforms(p: &Prog, allow_split: bool) -> Vec<(String, Prog)> {
     if !prog_contains(p, &|s| matches!(s, Stmt::Tron)) {
         gaps.push(nums.last().cloned().unwrap_or(0) + 3);
     }
+    let tron = prog_contains(p, &|s| matches!(s, Stmt::Tron));
     for g in gaps {
+        // a line that executes but does nothing; it allocates a local label,
+        // which shifts every later label of the program
+        if !tron {
+            let mut q = p.clone();
+            let noop = Stmt::If(int(0), Branch::Stmts(vec![Stmt::Print(vec![PItem::E(strlit("zz")), PItem::Semi])]), None);
+            q.lines.push(Line { num: g, stmts: vec![noop] });
+            q.lines.sort_by_key(|l| l.num);
+            out.push((format!("insert-noop-if-line@{}", g), q));
+        }
         for (nm, body) in [
             ("insert-rem-line", vec![Stmt::Rem("X".into())]),
             ("insert-tick-line", vec![Stmt::Raw("' Y".into())]),
@@ -218,6 +228,10 @@ fn judge_with(pairs: bool) -> impl Fn(&Prog, &mut Ctx) + Sync + Send {
     }
 }
 
+fn sweep0(n: usize, level: Level) -> Box<dyn Sweep> {
+    Box::new(ProgSweep { label: "layout-single-from-line-0".into(), n, level, judge: Box::new(judge_with(false)), verdict_on_crash: false })
+}
+
 fn sweep(n: usize, level: Level, pairs: bool) -> Box<dyn Sweep> {
     Box::new(ProgSweep {
         label: if pairs { "layout-pairs".into() } else { "layout-single".into() },
@@ -235,12 +249,15 @@ impl Check for C20 {
     fn sweeps(&self, tier: Tier) -> Vec<Box<dyn Sweep>> {
         match tier {
             Tier::Quick => vec![
+                sweep0(2, Level::Medium),
                 sweep(1, Level::Full, true),
                 sweep(2, Level::Full, false),
                 sweep(2, Level::Medium, true),
                 sweep(3, Level::Core, false),
             ],
             Tier::Thorough => vec![
+                sweep0(2, Level::Full),
+                sweep0(3, Level::Core),
                 sweep(1, Level::Full, true),
                 sweep(2, Level::Full, true),
                 sweep(3, Level::Medium, false),
